@@ -37,6 +37,7 @@ fn dispatch(prop: &str, ctx: &Ctx, replay: Option<&[String]>) -> bool {
     "C16" => p!(c16),
     "C17" => p!(c17),
     "C18" => p!(c18),
+    "C19" => p!(c19),
     _ => false,
   }
 }
